@@ -1,7 +1,7 @@
 (* C13 — property theorems.  Only statements closed by `exact`, each followed by Print Assumptions. *)
 From OlaBase Require Import Bytes.
-From C13 Require Import Gen GenTables Model AckTimer Responders MovingLight Chk Proofs ProofsHelpers ProofsResp ProofsMoving
-  ProofsAck ProofsFan.
+From C13 Require Import Gen GenTables Model AckTimer Responders MovingLight Network Dummy Chk Proofs ProofsHelpers
+  ProofsResp ProofsMoving ProofsNet ProofsDimmer ProofsAck ProofsFan.
 Local Open Scope N_scope.
 
 (* ---- layer 2: the response builders ---- *)
@@ -399,14 +399,73 @@ Proof.
 Qed.
 Print Assumptions c13_moving_light.
 
+(* ---- round 6: NetworkResponder and DummyResponder, with the eight E1.37-2 network helpers over an abstract
+   NetworkManagerInterface.  net_ok: at most 38 interfaces (LIST_INTERFACES has no ACK_OVERFLOW). ---- *)
+Theorem c13_network :
+  forall c uid q st,
+    6 * len (n_ifs (nc_net c)) <= MAX_PDL ->
+    let out := fst (nr_send c uid q st) in
+    let st' := snd (nr_send c uid q st) in
+    (exists s ro, out = [(s, ro)]) /\
+    (is_broadcast (q_dst q) = true -> exists s, out = [(s, None)]) /\
+    (is_broadcast (q_dst q) = false -> directed_to (q_dst q) uid = true ->
+     q_cc q = GET_COMMAND \/ q_cc q = SET_COMMAND ->
+     exists r, out = [(RDM_COMPLETED_OK, Some r)] /\ resp_ok q r /\
+               (r_type r = RDM_NACK_REASON -> st' = st)).
+Proof. exact network_conforms. Qed.
+Print Assumptions c13_network.
+
+(* DummyResponder after every history, any sensors.  The request is well formed (bytes, at most 231 of them)
+   and outside exactly the recorded departure C13-testdata-over-231 (known_testdata: GET TEST_DATA asking for
+   232..4096 bytes, see c13_helpers_testdata_refuted); the configuration has at most 38 interfaces and URL
+   strings that fit one response. *)
+Theorem c13_dummy :
+  forall c uid ss h q,
+    (6 * len (n_ifs (dc_net c)) <= MAX_PDL /\ len (dc_url_manu c) <= MAX_PDL /\
+     len (dc_url_product c) <= MAX_PDL /\ len (dc_url_firmware c) <= MAX_PDL) ->
+    (bytes_ok (q_data q) = true /\ len (q_data q) <= MAX_PDL /\ known_testdata q = false) ->
+    let st := snd (dr_run c uid h (dr_init ss)) in
+    let out := fst (dr_send c uid q st) in
+    let st' := snd (dr_send c uid q st) in
+    (exists s ro, out = [(s, ro)]) /\
+    (is_broadcast (q_dst q) = true -> exists s, out = [(s, None)]) /\
+    (is_broadcast (q_dst q) = false -> directed_to (q_dst q) uid = true ->
+     q_cc q = GET_COMMAND \/ q_cc q = SET_COMMAND ->
+     exists r, out = [(RDM_COMPLETED_OK, Some r)] /\ resp_ok q r /\
+               (q_cc q = SET_COMMAND -> r_type r = RDM_NACK_REASON -> st' = st)).
+Proof.
+  exact (fun c uid ss h q CO RQ =>
+           proj2 (dummy_conforms c uid q _ CO RQ (dr_run_inv c uid h (dr_init ss) (dr_init_inv ss)))).
+Qed.
+Print Assumptions c13_dummy.
+
+(* the hypotheses are met by a concrete request and configuration; the excluded region is exactly the finding *)
+Example c13_dummy_hyps_satisfiable :
+  (bytes_ok [0; 231] = true /\ len [0; 231] <= MAX_PDL /\
+   known_testdata (mkReq 1 2 0 1 0 GET_COMMAND PID_TEST_DATA [0; 231]) = false) /\
+  known_testdata (mkReq 1 2 0 1 0 GET_COMMAND PID_TEST_DATA [0; 232]) = true /\
+  known_testdata (mkReq 1 2 0 1 0 GET_COMMAND PID_TEST_DATA [16; 1]) = false.
+Proof. repeat split; vm_compute; congruence. Qed.
+
+(* the composite DimmerResponder (root + SubDeviceDispatcher + sub-devices, handlers as modelled): every request,
+   in every state, is completed exactly once and no deleted fan-out tracker is touched *)
+Theorem c13_dimmer_once :
+  forall c uid q st, len (dm_subs st) < 65536 -> exists r st', dm_send c uid q st = FOk [r] st'.
+Proof. exact dimmer_once. Qed.
+Print Assumptions c13_dimmer_once.
+
 (* the modelled handler tables have exactly the PIDs and GET/SET handlers of the PARAM_HANDLERS arrays
    (GenTables.v is regenerated from the sources on every run) *)
 Theorem c13_tables :
-  forall c mc n,
+  forall c mc n nc dc,
     shape (sr_table c) = TBL_SensorResponder /\ shape (ds_table c n) = TBL_DimmerSubDevice /\
     shape (dm_table c) = TBL_DimmerRootDevice /\ shape (at_table c) = TBL_AckTimerResponder /\
-    shape (ml_table mc) = TBL_MovingLightResponder.
-Proof. exact (fun c mc n => conj eq_refl (conj eq_refl (conj eq_refl (conj eq_refl eq_refl)))). Qed.
+    shape (ml_table mc) = TBL_MovingLightResponder /\ shape (nr_table nc) = TBL_NetworkResponder /\
+    shape (dr_table dc) = TBL_DummyResponder.
+Proof.
+  exact (fun c mc n nc dc => conj eq_refl (conj eq_refl (conj eq_refl (conj eq_refl (conj eq_refl
+                             (conj eq_refl eq_refl)))))).
+Qed.
 Print Assumptions c13_tables.
 
 (* the literal numbers of the property text *)
